@@ -172,6 +172,16 @@ Example ex_hyps :
   writable (cache_members ex_compress ex_objs [] ex_stderr) = true
   /\ no_z64_locator ex_bs = true /\ eocd_sig_unique ex_bs = true /\ lenN ex_bs = 290.
 Proof. exact ex_hypotheses. Qed.
+(* output that is only white space, or a NUL byte, is output: it is stored and comes back (the writer skips a
+   stdout/stderr iff it is the empty byte string) *)
+Example ex_blank_output_roundtrips :
+  unpack ex_decompress (cache_write ex_compress ex_objs [10] [32; 9; 13; 10]) ex_reqs
+  = UHit [10] [32; 9; 13; 10] [Some (Some 33261, [127; 69; 76; 70]); Some (Some 33188, [1; 2])]
+  /\ unpack ex_decompress (cache_write ex_compress ex_objs [0] []) ex_reqs
+     = UHit [0] [] [Some (Some 33261, [127; 69; 76; 70]); Some (Some 33188, [1; 2])]
+  /\ has_name (match open_entry (cache_write ex_compress ex_objs [10] []) with Some ar => ar | None => [] end) NAME_STDOUT = true
+  /\ has_name (match open_entry (cache_write ex_compress ex_objs [] []) with Some ar => ar | None => [] end) NAME_STDOUT = false.
+Proof. vm_compute. repeat split. Qed.
 Example ex_payload_substitutions_are_misses :
   unpack ex_decompress (subst_at 35 0 ex_bs) ex_reqs = UMiss
   /\ unpack ex_decompress (subst_at 74 0 ex_bs) ex_reqs = UMiss
